@@ -1666,6 +1666,20 @@ class B64Enc(csmt.Enc):
         self.set_bound(x1, 4096)
 
 
+class RowKeyEnc(csmt.Enc):
+    """csmt.Enc.table_pred caches the predicate of a multi-column lookup under (lookup name, symbolic
+    columns, NUMBER of table rows compatible with the constant columns). Two inputs of one lookup whose
+    constant components select different row sets of the same size would share one predicate: in a chip
+    with several automata the first row of every `parse` region has a constant source state (the
+    automaton's initial state), and `parse(A)` / `parse(C)` both select exactly one row. Here the
+    selected rows themselves are part of the key."""
+
+    def table_pred(self, lk, table, rows, symidx, atoms):
+        proj = sorted(set(tuple(r[i] for i in symidx) for r in rows))
+        tag = fcore.stable_hash(json.dumps(proj))
+        return super().table_pred(dict(lk, name=f"{lk['name']}#{tag}"), table, rows, symidx, atoms)
+
+
 class PresetEnc(csmt.Enc):
     """csmt.Enc with static range facts fixed in advance (class -> exclusive upper bound). Every preset
     was proven by `discover_bounds` from a SUBSET of the system's own constraints, so asserting it does
